@@ -13,6 +13,7 @@ package main
 //  reap()/reapInternal() are called from nowhere else in the package (non-test files).
 
 import (
+	"fmt"
 	"go/ast"
 	"sort"
 	"strings"
@@ -107,6 +108,88 @@ func init() {
 				return true
 			})
 		}
+		// every function of package snapshot that touches the MRSW lock: (acquisitions, acquisitions
+		// immediately followed by the matching deferred release, other releases)
+		var lockUse []string
+		for _, f := range x.Pkg("snapshot") {
+			for _, d := range f.Decls {
+				fd, ok := d.(*ast.FuncDecl)
+				if !ok || fd.Body == nil {
+					continue
+				}
+				name := fd.Name.Name
+				if fd.Recv != nil && len(fd.Recv.List) == 1 && recvName(fd.Recv.List[0].Type) != "Store" {
+					name = recvName(fd.Recv.List[0].Type) + "." + name
+				}
+				begins, paired, ends := 0, 0, 0
+				isBegin := func(n ast.Node) string {
+					var found string
+					ast.Inspect(n, func(m ast.Node) bool {
+						if c, ok := m.(*ast.CallExpr); ok {
+							src := x.Src(c.Fun)
+							for _, b := range []string{"BeginReadBlocking", "BeginRead", "BeginWriteBlocking", "BeginWrite"} {
+								if strings.HasSuffix(src, "mrsw."+b) {
+									found = b
+									return false
+								}
+							}
+						}
+						return true
+					})
+					return found
+				}
+				var visit func(list []ast.Stmt)
+				visit = func(list []ast.Stmt) {
+					for i, st := range list {
+						// only the statement itself (for an if: its Init), not nested blocks
+						var probe ast.Node
+						switch t := st.(type) {
+						case *ast.IfStmt:
+							if t.Init != nil {
+								probe = t.Init
+							}
+						case *ast.ExprStmt:
+							probe = t
+						}
+						if probe != nil {
+							if b := isBegin(probe); b != "" {
+								if _, isDefer := st.(*ast.DeferStmt); !isDefer {
+									begins++
+									want := "EndRead"
+									if strings.HasPrefix(b, "BeginWrite") {
+										want = "EndWrite"
+									}
+									if i+1 < len(list) {
+										if ds, ok := list[i+1].(*ast.DeferStmt); ok && strings.HasSuffix(x.Src(ds.Call.Fun), "mrsw."+want) {
+											paired++
+										}
+									}
+								}
+							}
+						}
+					}
+				}
+				ast.Inspect(fd.Body, func(n ast.Node) bool {
+					if b, ok := n.(*ast.BlockStmt); ok {
+						visit(b.List)
+					}
+					if c, ok := n.(*ast.CallExpr); ok {
+						src := x.Src(c.Fun)
+						if strings.HasSuffix(src, "mrsw.EndRead") || strings.HasSuffix(src, "mrsw.EndWrite") {
+							ends++
+						}
+					}
+					return true
+				})
+				if begins+ends > 0 {
+					lockUse = append(lockUse, fmt.Sprintf("(%s, %d, %d, %d)", LeanStr(name), begins, paired, ends-paired))
+				}
+			}
+		}
+		sort.Strings(lockUse)
+		x.Comment("snapshot/: per function (name, lock acquisitions, acquisitions directly followed by the matching deferred release, other releases)")
+		x.Raw("def lockUse : List (String × Nat × Nat × Nat) := [" + strings.Join(lockUse, ", ") + "]")
+
 		x.Comment("snapshot/store.go lock brackets")
 		x.DefBool("streamerReadFound", readFound)
 		x.Raw("def streamerReadTimerCalls : Nat := " + itoa(readTimerCalls))
